@@ -143,6 +143,13 @@ func (s *Store) UnregisterSP(entityID string) {
 	s.mu.Unlock()
 }
 
+// SetAppEntity overrides what GetEntityIDByAppID answers for appID (the storage, not the metadata, owns that mapping).
+func (s *Store) SetAppEntity(appID, entityID string) {
+	s.mu.Lock()
+	s.apps[appID] = entityID
+	s.mu.Unlock()
+}
+
 func (s *Store) AddUser(u *User) {
 	s.mu.Lock()
 	s.users[u.ID] = u
